@@ -195,7 +195,12 @@ pub fn prost_frame_of_len(id: u64, n: usize) -> Option<Value> {
 
 fn run(out: &mut Out, sched: &Value) {
     let codec = vcommon::s(sched, "codec");
-    let limit = vcommon::n(sched, "limit") as usize;
+    // "hugelimit": k  =>  the codec limit is usize::MAX - k (TLC integers are 32-bit: the trace carries the capped
+    // "limit" of the schedule; such schedules consist of junk only, where the limit does not enter the specification)
+    let limit = match sched.get("hugelimit").and_then(|x| x.as_u64()) {
+        Some(k) => usize::MAX - k as usize,
+        None => vcommon::n(sched, "limit") as usize,
+    };
     let maxpub = sched.get("maxpub").and_then(|x| x.as_i64()).unwrap_or(0) as usize;
     let maxctl = sched.get("maxctl").and_then(|x| x.as_i64()).unwrap_or(0) as usize;
     let via = sched.get("via").and_then(|x| x.as_str()).unwrap_or("new");
@@ -249,7 +254,7 @@ fn run(out: &mut Out, sched: &Value) {
     }
     let total = stream.len();
     out.reset_with(
-        json!({"codec": codec, "limit": limit, "maxpub": maxpub, "maxctl": maxctl, "early": codec == "prost", "slack": 10, "total": total, "frames": frames}),
+        json!({"codec": codec, "limit": limit.min(1 << 30), "maxpub": maxpub, "maxctl": maxctl, "early": codec == "prost", "slack": 10, "total": total, "frames": frames}),
         sched,
     );
     if let Some(e) = enc_fail {
@@ -481,6 +486,25 @@ fn exhaustive(thorough: bool) -> Vec<Value> {
                 s.junk = j.to_vec();
                 out.push(s.sched(json!("bytes")));
                 out.push(s.cut(&[]));
+            }
+        }
+    }
+    // (C') limits close to usize::MAX with declared lengths close to usize::MAX (a 10-byte prefix): length arithmetic
+    // must not overflow; the decoder just keeps waiting (or rejects) - announced as junk, so only "no panic, nothing
+    // consumed on Ok(None)" is demanded
+    for k in [0u64, 1, 9, 10, 11, 300] {
+        for d in [0u64, 1, 9, 10, 11, 12, 300] {
+            let mut j = vec![];
+            let mut v = u64::MAX - d;
+            while v >= 0x80 {
+                j.push((v as u8) | 0x80);
+                v >>= 7;
+            }
+            j.push(v as u8);
+            j.extend_from_slice(&[0x0a, 0x01, 0x07]);
+            for chunks in [json!("bytes"), json!([13]), json!([10, 3])] {
+                out.push(json!({"codec": "prost", "via": "new", "limit": 1 << 30, "hugelimit": k, "maxpub": 500, "maxctl": 16384,
+                                "frames": [], "junk": j, "chunks": chunks}));
             }
         }
     }
